@@ -59,8 +59,32 @@ def check_overwrite(prog, rep):
         return (isinstance(e, ast.BinOp) and isinstance(e.op, ast.Add) and isinstance(e.left, ast.Name) and e.left.id == grp
                 and isinstance(e.right, ast.Name) and e.right.id == keyv)
 
+    def discard_helper(c):
+        """call of a module function whose whole body is `if (name in file) and overwrite: del file[name]`, given (h5file, <field>, overwrite)"""
+        if not (isinstance(c.func, ast.Name)):
+            return False
+        g = prog.resolve_name(f.module, c.func.id)
+        if not hasattr(g, "node") or getattr(g, "cls", None) is not None:
+            return False
+        gb = body_nodoc(g.node)
+        gp = g.params()
+        if len(gb) != 1 or not isinstance(gb[0], ast.If) or gb[0].orelse or len(gp) < 3:
+            return False
+        gi = gb[0]
+        if not (len(gi.body) == 1 and isinstance(gi.body[0], ast.Delete) and len(gi.body[0].targets) == 1 and "".join(dump(gi.body[0].targets[0]).split()) == "%s[%s]" % (gp[0], gp[1])):
+            return False
+        t = "".join(dump(gi.test).split())
+        if t not in ("%sin%sand%s" % (gp[1], gp[0], gp[2]), "%sand%sin%s" % (gp[2], gp[1], gp[0])):
+            return False
+        ba, _ = prog.bound_args(f, c)
+        if ba is None:
+            return False
+        return dump(ba.get(gp[0])) == h5 and ba.get(gp[1]) is not None and is_field(ba[gp[1]]) and (owv is None or dump(ba.get(gp[2])) == owv)
+
     def classify(st):
         evs = []
+        if isinstance(st, ast.Expr) and isinstance(st.value, ast.Call) and discard_helper(st.value):
+            return [Event("discard", st)]
         if isinstance(st, ast.Delete):
             for t in st.targets:
                 if isinstance(t, ast.Subscript) and isinstance(t.value, ast.Name) and t.value.id == h5 and is_field(t.slice):
@@ -131,6 +155,11 @@ def check_overwrite(prog, rep):
                 test, taken = e.data
                 if _is_exists_and_overwrite(test, h5, is_field, owv):
                     guards.append(taken)
+        if "discard" in w:
+            # the guarded delete happens inside the helper: the path behaves like `guard passed; del` at that point
+            k = w.index("discard")
+            w = w[:k] + ["del"] + w[k + 1:]
+            guards = [True] + guards
         if "recurse" in w:
             # a nested dictionary is read back key by key from its group (h5py_File_read_dict takes every key it finds): the old group has to go first
             if not guards:
